@@ -7,7 +7,7 @@ shutil.rmtree(d,ignore_errors=True); os.makedirs(d)
 shutil.copy(f'{wt}/seed.patch',f'{d}/patch.diff')
 shutil.copytree(f'{wt}/seed_demo',f'{d}/demo',ignore=shutil.ignore_patterns('routes','*.gleece.go','dist','out','*.exe'))
 base=subprocess.check_output(['git','-C','/repo','rev-parse','--short','HEAD'],text=True).strip()
-json.dump({"property":prop,"round":2,"breaks":breaks,"needs_to_manifest":needs,"caught_by":caught,"check_strengthened_after_miss":strn=='1',"base_commit":base,
+json.dump({"property":prop,"round":int(os.environ.get("SEED_ROUND","2")),"breaks":breaks,"needs_to_manifest":needs,"caught_by":caught,"check_strengthened_after_miss":strn=='1',"base_commit":base,
  "confirmed":{"go build ./...":"ok","existing suite with the change":"37 ok, only the 2 baseline failures","demonstration":"fails with the change, passes without it (tools/seedverify.sh)",
  "checks":f"git -C /repo apply seeded/{name}/patch.diff; ./vc <check> quick -> exit 1 with VIOLATION lines; git -C /repo checkout -- . (tools/seedcheck.sh)"}},open(f'{d}/meta.json','w'),indent=1)
 print('stored',d, subprocess.check_output(['du','-sh',d],text=True).split()[0])
